@@ -43,7 +43,7 @@ AlgInfo(k, n) ==
 RoundTripHolds == \A k \in Kinds : \A n \in Advertised(k) : FromTransform(k, ToTransform(k, n)) = n
 
 ToStep(k, n) == Step("alg_to_transform", "C11", FALSE, [kind |-> k, name |-> n],
-                     [panic |-> FALSE, err |-> FALSE, tr |-> ToTransform(k, n)] @@ AlgInfo(k, n))
+                     [panic |-> FALSE, err |-> FALSE, tr |-> ToTransform(k, n), fresh |-> TRUE] @@ AlgInfo(k, n))
 FromStep(k, t, wire) ==
   LET n == FromTransform(k, t) IN
   Step("transform_to_alg", "C11", FALSE, [kind |-> k, tr |-> t, wire |-> wire],
